@@ -2077,11 +2077,19 @@ impl<'a> BackendWriteTransaction<'a> {
         } = self;
 
         // write the ruv content back to the db.
+        #[cfg(feature = "verif-hooks")]
+        let _ = crate::verif_hooks::point("be.c.start");
         idlayer.write_db_ruv(ruv.added(), ruv.removed())?;
 
         idlayer.commit().map(|()| {
+            #[cfg(feature = "verif-hooks")]
+            let _ = crate::verif_hooks::point("be.c.ruv");
             ruv.commit();
+            #[cfg(feature = "verif-hooks")]
+            let _ = crate::verif_hooks::point("be.c.idxmeta");
             idxmeta_wr.commit();
+            #[cfg(feature = "verif-hooks")]
+            let _ = crate::verif_hooks::point("be.c.done");
         })
     }
 
@@ -2255,6 +2263,8 @@ impl Backend {
     }
 
     pub fn read(&self) -> Result<BackendReadTransaction<'_>, OperationError> {
+        #[cfg(feature = "verif-hooks")]
+        let _ = crate::verif_hooks::point("be.r.start");
         Ok(BackendReadTransaction {
             idlayer: self.idlayer.read()?,
             idxmeta: self.idxmeta.read(),
@@ -2269,6 +2279,15 @@ impl Backend {
             ruv: self.ruv.write(),
         })
     }
+}
+
+#[cfg(feature = "verif-hooks")]
+pub(crate) fn verif_raw_entries<T: BackendTransaction>(
+    be: &mut T,
+) -> Result<Vec<(u64, Vec<u8>)>, OperationError> {
+    be.get_idlayer()
+        .get_identry_raw(&IdList::AllIds)
+        .map(|v| v.into_iter().map(|r| (r.id, r.data)).collect())
 }
 
 // What are the possible actions we'll receive here?
